@@ -46,6 +46,46 @@ def scratch_repo():
     return _scratch
 
 
+def prior_activity(seed=0):
+    """What an interpreter that has been in use looks like: other programs were parsed, loaded, built and run before the one under test.
+    Every property is stated for any such history (C11, C16, C19, C20 say so explicitly), so every check starts from a used process:
+    an EEMS 2.0 file parsed and loaded, one rejected with a syntax error after its first command, one rejected at load time, programs built
+    over reduced and over the NetCDF library sets, a program run, parameter objects of the libraries exercised."""
+    import contextlib, io, warnings
+    from mpilot.program import Program, EEMS_CSV_LIBRARIES, EEMS_NETCDF_LIBRARIES
+    from mpilot.parser.parser import Parser
+    d = tempfile.mkdtemp(prefix="mpv_prior_")
+    try:
+        with open(os.path.join(d, "p.csv"), "w") as f:
+            f.write("a,b\n1,2\n3,0\n")
+        v2 = 'READ(InFileName = "p.csv", InFieldName = a)\nREAD(InFileName = "p.csv", InFieldName = b, NewFieldName = B2)\nCVTTOFUZZY(InFieldName = a, NewFieldName = Fz, OutFileName = "o.csv")\n'
+        texts = [v2, v2 + "NOT(InFieldName = Fz, NewFieldName = Nf\n", v2 + "X = NoSuchCommand(A = 1)\n",
+                 'A = EEMSRead(InFileName = "p.csv", InFieldName = a, MissingVal = 0)\nS = Sum(InFieldNames = [A, A])\n'
+                 'F = CvtToFuzzy(InFieldName = S, TrueThreshold = 0, FalseThreshold = 8, Metadata = [Note: "x"])\nW = EEMSWrite(OutFileName = "w.csv", OutFieldNames = [A, F])\n']
+        with warnings.catch_warnings(), contextlib.redirect_stdout(io.StringIO()):
+            warnings.simplefilter("ignore")
+            for libs in (("mpilot.libraries.eems.basic",), EEMS_NETCDF_LIBRARIES, EEMS_CSV_LIBRARIES):
+                try:
+                    Program(libraries=libs)
+                except Exception:
+                    pass
+            shared = Parser()
+            for t in texts:
+                for parse in (shared.parse, lambda s: Parser().parse(s)):
+                    try:
+                        parse(t)
+                    except Exception:
+                        pass
+                try:
+                    p = Program.from_source(t, working_dir=d)
+                    p.run()
+                    p.to_string()
+                except Exception:
+                    pass
+    finally:
+        shutil.rmtree(d, True)
+
+
 def tmpdir(prefix="mpv_"):
     d = tempfile.mkdtemp(prefix=prefix)
     atexit.register(shutil.rmtree, d, True)
